@@ -325,6 +325,20 @@ def std_part(ctx, fails, cases=None):
                 r0 = run_est(kind, df, meta, gen, stab, rx)
                 r1 = run_est(kind, dj, meta, gen, stab, rx)
                 ctx.evaluations += 2
+                if kind == 'AIPSW' and 'error' not in r0:
+                    # a target cohort with the treatment on file and the outcome never measured: A recorded, Y missing outside the
+                    # study sample -- nothing recorded there may matter
+                    da = df.copy()
+                    da.loc[da['S'] == 0, 'A'] = dj.loc[dj['S'] == 0, 'A']
+                    r2 = run_est(kind, da, meta, gen, stab, rx)
+                    ctx.evaluations += 1
+                    ctx.disagreements_checked += 1
+                    ctx.count('AIPSW: non-sampled rows with the treatment recorded and the outcome missing')
+                    if 'error' in r2 or not (rel_close(r2['rd'], r0['rd'], 1e-9) and rel_close(r2['rr'], r0['rr'], 1e-9)):
+                        fails.append((meta['n'], 'AIPSW.non-sampled-treatment-recorded', 'AIPSW(generalize=%s, stabilized=%s, treatment_model=%s): RD/RR %s with the '
+                                      'treatment recorded (outcome missing) for the non-sampled rows, %r/%r with nothing recorded there'
+                                      % (gen, stab, rx, r2.get('error') or '%r/%r' % (r2['rd'], r2['rr']), r0['rd'], r0['rr']),
+                                      payload_of(da, meta, kind, gen, stab, rx)))
                 work.append(('est', fid, (kind, gen, stab, rx, r0, r1)))
                 exprs.append(model_expr(kind, fid, gen, stab, rx, r0) if 'error' not in r0 and (gen, stab, rx) in with_model
                              else 'Qflat [0]')
